@@ -209,6 +209,28 @@ def run(chk):
                            f"beta function changes its lepton number at m_tau, so a_em does not solve its RGE across it otherwise", where=fa.where,
                            instance=inst, how="PE with recording solver")
     chk.floor("lepton-threshold cases", n_lep, 18)
+    # ---- the reference point stays the reference value, whatever was evaluated before -----------------------------------------
+    # "the coupling at the reference point equals the reference value" must hold for every history of calls on one object: no
+    # method reachable from an evaluation may write the stored reference (directly or through a local alias of it)
+    from .. import effects as E
+
+    ccls = src.cls("eko.couplings.Couplings")
+    roots = [m.qname for nm, m in ccls.methods.items() if nm in ("a", "a_s", "a_em", "compute", "compute_exact", "compute_aem_as", "compute_exact_alphaem_running",
+                                                                   "compute_exact_fixed_alphaem", "unidimensional_exact")]
+    chk.need("eko.couplings.Couplings.a" in roots, "Couplings.a not found")
+    reach = [q for q in E.reach(src, roots) if q.startswith("eko.couplings.Couplings.")]
+    n_m = 0
+    for q in sorted(set(reach) | set(roots)):
+        f = src.funcs.get(q)
+        if f is None or f.node.name == "__init__":
+            continue
+        n_m += 1
+        w = [x for x in E.self_writes(f) if x[0] in ("a_ref", "nf_ref", "mu2_ref", "thresholds_ratios", "order", "method")]
+        chk.decide(not w, "evaluation-leaves-the-reference-untouched", q,
+                   f"writes the object's reference data: {[(a, t) for a, t, _ in w][:2]}: after such a call the coupling at the reference "
+                   f"point is no longer the reference value and every later evaluation starts from the changed value", where=f.where,
+                   instance=q.rsplit(".", 1)[1])
+    chk.floor("evaluation methods of Couplings", n_m, 3)
     chk.note(instances=n_inst, files=["src/eko/couplings.py", "src/eko/beta.py"])
     chk.explanation = ("Right-hand sides of the integrated ODEs extracted and compared with the literature RGEs; expanded solutions "
                        "checked at the reference point and against the RGE to working order.")
